@@ -23,7 +23,7 @@ import itertools
 import numpy as np
 
 from mcx.core.kernel import res
-from mcx.core.env import gv_reset
+from mcx.core.env import gv_reset, ScriptedRNG, scripted_rng
 
 ID = 'C03'
 LEVEL = 'exploration'
@@ -208,8 +208,12 @@ def link_case(case):
     bits = bits_of(word)
     sps = cfg[0]
     kc = key_class(cfg)
-    y = run_link(cfg, bits)
+    # the link is run under the scripted RNG: a noise-free field through PD('ase-only') must not request a single draw
+    with scripted_rng(ScriptedRNG()) as rng:
+        y = run_link(cfg, bits)
     viol = []
+    if rng.requests:
+        viol.append(('link:random-draw-with-noise-off', f'cfg={cfg} word={word}: the noise-free link requested random numbers: {rng.requests[:2]}'))
     if y.len() != bits.size * sps:
         viol.append(('link:length', f'cfg={cfg} word={word}: PD output has {y.len()} samples, expected {bits.size*sps}'))
     s = SAMPLER(y, sps // 2)
@@ -268,6 +272,7 @@ def ook_case(case):
     from opticomlib import ook
     from opticomlib.typing import binary_sequence
     bits = bits_of(word)
+    np.random.seed(seed)            # own the global RNG for the whole case (the link itself must not draw from it)
     y = run_link(cfg, bits)
     np.random.seed(seed)
     out = ook.DSP(y)
@@ -314,6 +319,7 @@ def ppm_case(case):
     cfg, M, which, data, seed = case
     from opticomlib import ppm
     from opticomlib.typing import binary_sequence
+    np.random.seed(seed)
     dbits = bits_of(data)
     tag = f'cfg={dict(zip(NAMES, cfg))} M={M} data({which})={data} seed={seed}'
     viol = []
@@ -323,6 +329,7 @@ def ppm_case(case):
     if not np.array_equal(sl, ref):
         viol.append(('ppm.encoder:slots', f'{tag}: PPM_ENCODER gave {"".join(map(str, sl))}, reference {"".join(map(str, ref))}'))
         return res(viol=viol, obs=('enc', sl.tobytes()), nontrivial=True, stats={'ppm_runs': 1})
+    np.random.seed(seed)
     y = run_link(cfg, sl)
     obs = [data, M]
     nber = 0
@@ -372,11 +379,15 @@ def run(ctx):
              f'Deviation lattice over {len(AXES)} axes ' + '; '.join(f'{a}{v}' for a, v in AXES) +
              f' (points with PD BW >= fs/2 dropped; |beta2*L| = {DISP_FRACTION*100:.1f}% of T_slot^2). '
              f'link.words: all {2**nw-2} words of length {nw} with both symbols x the {len(lat1)} configurations with <= 1 deviation. '
-             f'link.lattice: 8 fixed words x the {len(latk)} configurations with <= {k_lat} deviations. '
-             f'ook.dsp / ppm.dsp: k<=1 configurations x word set x KMeans seed alphabet; ber.counter: all flip sets of size 1..3 '
-             f'over positions {FLIP_POS}')
+             f'link.lattice: 8 fixed words x the {len(latk)} configurations with <= {k_lat} deviations' + ('. ' if quick else '; link.words8.k=2: all 254 words of length 8 x the configurations with exactly 2 deviations. ') +
+             f'ook.dsp (words of 32/64/127 slots, PRBS7 and seeded-random) and ppm.dsp (M in 2,4,8,16 x data words ramp/PRBS7/seeded of '
+             f'16 symbols, soft and hard with estimated threshold): the configurations with <= {1 if quick else 2} deviations plus '
+             f'{len(CORNERS)} corner points (largest/smallest received voltage, dispersive channel x finest grid / widest PD bandwidth) '
+             f'x KMeans seed alphabet {(0, 1) if quick else (0, 1, 2)}; on every decoded output both BER_analizer(counter) must give '
+             f'exactly 0 and exactly k/n for every flip set of size 1..3 over positions {FLIP_POS}; ber.counter repeats that on plain '
+             f'sequences of length 2..127')
     ctx.assume('noise-free means: no noise attached to the optical field and PD(include_noise="ase-only"), which leaves only the '
-               'deterministic dark-current offset (requests no random numbers)')
+               'deterministic dark-current offset; link.* cases run under the scripted RNG and report any random draw as a violation')
     ctx.assume('GET_EYE draws from numpy\'s global RNG through KMeans; owned by np.random.seed(s), s from a small seed alphabet, '
                'single-threaded workers')
     ctx.assume('VERIF_SEED selects only the content of the seeded-random words')
@@ -389,12 +400,20 @@ def run(ctx):
     m1 = ctx.pmap('link.words', link_case, cases, horizon=30)
     print(f'[C03] link.words done in {time.time()-t0:.1f}s', flush=True); t0 = time.time()
 
+    m1b = []
+    if not quick:
+        # thorough only: all 8-bit words on every configuration with exactly 2 deviations
+        s1 = set(lat1)
+        cases = [(c, w) for c in lattice(2) if c not in s1 for w in all_words(8)]
+        m1b = ctx.pmap('link.words8.k=2', link_case, cases, horizon=30)
+        print(f'[C03] link.words8.k=2 done in {time.time()-t0:.1f}s', flush=True); t0 = time.time()
+
     # --- part 2: fixed words on the k-lattice
     fw = fixed_words(seed)
     cases = [(c, w) for c in latk for w in fw]
     m2 = ctx.pmap('link.lattice', link_case, cases, horizon=30)
     print(f'[C03] link.lattice done in {time.time()-t0:.1f}s', flush=True); t0 = time.time()
-    ms = [m for m in (m1 + m2) if m is not None]
+    ms = [m for m in (m1 + m1b + m2) if m is not None]
     if ms:
         ctx.extra['min_relative_decision_margin'] = round(min(ms), 4)   # (distance of the closest sample to the threshold)/(m1-m0); 0.5 = ideal
         print(f'[C03] smallest relative decision margin over {len(ms)} link runs: {min(ms):.4f} (0.5 = ideal levels)', flush=True)
